@@ -17,7 +17,7 @@ TOL = 1e-10
 def plan(tier):
     n = 400 if tier == 'quick' else 6000
     return dict(n_cases=n, shards=16, min_nontrivial=n // 3,
-                min_tags={'clause:entrywise': n // 3, 'clause:total_mass': n // 12, 'clause:invariance': n // 12,
+                min_tags={'clause:blade1d_mass': n // 12, 'clause:entrywise': n // 3, 'clause:total_mass': n // 12, 'clause:invariance': n // 12,
                           'offset:nonzero': n // 6},
                 watchdog_s=1800 if tier == 'quick' else 10000,
                 rule='panels as in C02 (all four models, sub-intervals, placement), mu over six decades, offsets of both signs up to +-3t '
@@ -43,8 +43,37 @@ def mass_oracle(p, d, doff):
     return energy.quad_form(U, conical.inertia5(mu, h, doff), w)
 
 
+def case_blade1d(rng, tier):
+    """mass contribution of a 1-D blade stiffener through StiffPanelBay.calc_kM (anchor: bladestiff1d kernel fkMf)"""
+    from ..oracles import stiff1d
+    d = gen.bay_desc(rng, mmax=5, nstiff=(1, 1), kinds=('blade1d',), ncuts=int(rng.integers(1, 3)),
+                     fl=gen.flags(rng, style=str(rng.choice(['ss', 'clamped', 'mixed', 'free', 'binary']))))
+    c = Case({'mode': 'blade1d', 'bay': d})
+    c.tag('clause:blade1d_mass', 'curved' if 'r' in d else 'flat', 'base' if 'bb' in d['stiffeners'][0] else 'nobase')
+    d0 = dict(d); d0['stiffeners'] = []
+    try:
+        b1 = gen.build_bay(d); b0 = gen.build_bay(d0)
+        M1 = b1.calc_kM(silent=True).toarray(); M0 = b0.calc_kM(silent=True).toarray()
+    except Exception as e:
+        return c.reject('%s in bay.calc_kM: %s' % (type(e).__name__, str(e)[:100]))
+    c.hit('StiffPanelBay.calc_kM')
+    Ci = M1 - M0
+    o = stiff1d.contribution(d, b1, 2, gen.apply_flags)
+    S = o['S'] + np.abs(M0) * 1e-6
+    sc = S + 1e-6 * S.max() + 1e-300
+    err = float((np.abs(Ci - o['ref']) / sc).max())
+    mech = None
+    if err > 1e-9 and o['alt'] is not None and float((np.abs(Ci - o['alt']) / sc).max()) <= 1e-9:
+        mech = 'blade1d-flange-mass-coupling-doubled'
+    c.judge('1-D blade stiffener mass = base panel mass + kinetic energy of the flange on the line y=ys', err, 1e-9, mechanism=mech)
+    c.nontrivial = True
+    return c
+
+
 def run_case(rng, tier, idx):
-    mode = str(rng.choice(['entry', 'entry', 'entry', 'mass', 'invariance']))
+    mode = str(rng.choice(['entry', 'entry', 'entry', 'mass', 'invariance', 'blade1d']))
+    if mode == 'blade1d':
+        return case_blade1d(rng, tier)
     if mode == 'entry':
         d = gen.panel_desc(rng, mmax=8)
         if rng.random() < 0.3:
